@@ -30,4 +30,9 @@ CHECKS['C05'] = {'text': 'Real Matrix::Determinant (cofactor recursion through S
    'Invertible <=> det != 0; on every returning path of the real Gauss-Jordan Inverse (all pivot-order paths), X*M = I entrywise (n<=3) and M*X = I (n<=2 quick, n=3 thorough) as rational identities, every divisor non-zero, and every exit path implies det = 0 (totality: no invertible matrix is rejected); non-square input exits after a diagnostic.',
    'note': 'Exact real arithmetic: the kappa*n*eps accuracy clause is not decided. Identity obligations use the minimal sound hypotheses (executed divisors non-zero), z3 nlsat. The totality obligation found a genuine defect (no pivoting), repaired in /repo by a fix: commit.',
    'technique': EA}
+CHECKS['C16'] = {'text': 'Real Rotation_Matrix(alpha,2), Rotation_Matrix(alpha,3,axis) and both Spherical_Coordinates overloads executed with sin/cos replaced by arbitrary pairs (s,c), s^2+c^2=1, and a symbolic non-zero axis of any length (norm through a square-root witness): '
+   'R^T R = I, det R = 1, R n = n, R v = c v + s (n^ x v) for v perpendicular to n, R(a)R(b) = R(a+b) through the real matrix product (addition formulas supplied for the third angle), wrong dim / axis size rejected; '
+   'spherical vector = (r sin cos, r sin sin, r cos), with axis: norm r, polar angle theta from the axis, d/dphi = n^ x u (right-handed), for axes generic, parallel and antiparallel to z; every divisor non-zero and every sqrt argument non-negative for every non-zero axis.',
+   'note': 'Exact reals; theta in [0,pi] enters as sin(theta) >= 0; accuracy near the poles (cancellation) is not decided. The division-by-zero obligation found the antiparallel-axis NaN, repaired in /repo by a fix: commit.',
+   'technique': EA}
 NOT_APPLICABLE = {}
